@@ -193,4 +193,4 @@ def adjoint_tests(which):
         out = dm.render(wfe=True).copy()
         ybar = rng.standard_normal(out.shape)
         back = dm.render_backprop(ybar.copy(), wfe=True)
-        check('render-adjoint', bool(np.isclose((ybar * out).sum(), (back * acts).sum(), rtol=1e-6)))
+        check('render-adjoint-%s-influence-function' % ('odd' if s % 2 else 'even'), bool(np.isclose((ybar * out).sum(), (back * acts).sum(), rtol=1e-6)))
